@@ -23,6 +23,18 @@ JudgeBatch(items, what, same(_, _)) ==
         ELSE << "C19:" \o what \o ":" \o items[i].v.t \o "-and-" \o items[CHOOSE j \in js : TRUE].v.t \o ":same-text" >>
   IN Cat(one, Len(items), 1) \o Cat(clash, Len(items), 1)
 
+\* the dump, decoded by a generic YAML reader, says about every node what the analysis result says:
+\* same successors, predecessors, live sets, u_def, and the same (entry, exit) pair for every owning function
+ToSet(q) == { q[i] : i \in 1..Len(q) }
+Faithful(e) ==
+  IF Len(e.dump) # Len(e.mem) THEN << "C19:program:dump-has-a-different-number-of-nodes" >>
+  ELSE LET bad(f) == \E i \in 1..Len(e.mem) : ToSet(e.dump[i][f]) # ToSet(e.mem[i][f])
+           pairs(d) == IF Len(d.func_entry) # Len(d.func_exit) THEN {<<-1, -1>>}
+                       ELSE { <<d.func_entry[k], d.func_exit[k]>> : k \in 1..Len(d.func_entry) }
+           badf == \E i \in 1..Len(e.mem) : pairs(e.dump[i]) # { <<p[1], p[2]>> : p \in ToSet(e.mem[i].fpairs) }
+       IN (IF bad("nexts") \/ bad("prevs") THEN << "C19:program:dump-states-other-edges" >> ELSE <<>>)
+          \o (IF bad("live_in") \/ bad("live_out") \/ bad("u_def") THEN << "C19:program:dump-states-other-register-sets" >> ELSE <<>>)
+          \o (IF badf THEN << "C19:program:dump-states-other-function-entry-exit-pairs" >> ELSE <<>>)
 SameV(a, b) == DOMAIN a = DOMAIN b /\ a = b
 Judge(e) ==
   CASE e.ev = "yamlval" ->
@@ -31,6 +43,7 @@ Judge(e) ==
     [] e.ev = "obs" ->
          IF ~e.cfgok THEN <<>>
          ELSE IF ~e.yaml_rt THEN << "C19:program:dump-does-not-reload-equal" >> ELSE <<>>
+    [] e.ev = "faithful" -> Faithful(e)
     [] e.ev = "samedump" ->
          IF e.a # e.b THEN << "C19:program:different-results-same-dump:" \o e.what >> ELSE <<>>
     [] OTHER -> <<>>
